@@ -11,6 +11,8 @@ import (
 	"encoding/json"
 	"errors"
 	"fmt"
+	"regexp"
+	"strconv"
 	"strings"
 	"time"
 	"unicode/utf8"
@@ -248,7 +250,45 @@ func renderStyles(r *core.Rand, doc any) ([]byte, string) {
 	if err != nil {
 		return nil, "unrenderable"
 	}
-	return b, "yaml-block"
+	return respellInts(r, b), "yaml-block"
+}
+
+var plainIntRE = regexp.MustCompile(`(?m)(: |- )([1-9][0-9]{0,5})$`)
+
+// respellInts: some plain decimal integers of a block-style document in another spelling YAML gives the
+// same value to (octal 0755 / 0o755, hex, explicit sign, digit separators).
+func respellInts(r *core.Rand, b []byte) []byte {
+	return plainIntRE.ReplaceAllFunc(b, func(m []byte) []byte {
+		if r.Intn(3) != 0 {
+			return m
+		}
+		sub := plainIntRE.FindSubmatch(m)
+		n, err := strconv.Atoi(string(sub[2]))
+		if err != nil {
+			return m
+		}
+		var sp string
+		switch r.Intn(5) {
+		case 0:
+			sp = fmt.Sprintf("0%o", n)
+		case 1:
+			sp = fmt.Sprintf("0o%o", n)
+		case 2:
+			sp = fmt.Sprintf("0x%X", n)
+		case 3:
+			sp = fmt.Sprintf("+%d", n)
+		default:
+			sp = string(sub[2])
+			if len(sp) > 3 {
+				sp = sp[:len(sp)-3] + "_" + sp[len(sp)-3:]
+			}
+		}
+		var chk any
+		if yaml.Unmarshal([]byte(sp), &chk) != nil || chk != n {
+			return m
+		}
+		return append(append([]byte{}, sub[1]...), sp...)
+	})
 }
 
 // renderAliased: block YAML in which one collection (or scalar) carries an anchor and is used again,
@@ -536,6 +576,16 @@ func runParse(c *ctx, prop string) error {
 			c.res.Hist("decode-stage-error")
 			continue
 		}
+		// scalar values: every scalar of the document decodes to what yaml.v3 itself decodes it to
+		// (octal 0755, hex, floats, booleans, timestamps, null), judged on documents without aliases / merges
+		if want, ok := nodeScalarLeaves(src); ok {
+			c.res.OracleChecks++
+			var got []string
+			treeScalarLeaves(tree, &got)
+			if strings.Join(got, "\x00") != strings.Join(want, "\x00") {
+				c.res.Fail(core.OracleFailure{What: "a scalar of the document is decoded differently from yaml.v3's own decoding", Input: desc, Got: firstDiff(strings.Join(got, " | "), strings.Join(want, " | "))})
+			}
+		}
 		usable := perr == nil || warning.Is(perr)
 		var warns []any
 		flattenWarn(perr, &warns)
@@ -578,8 +628,15 @@ func runParse(c *ctx, prop string) error {
 				c.res.Fail(core.OracleFailure{What: "nil step in a usable result", Input: desc})
 			}
 		}
-		jb, jerr := json.Marshal(p)
-		yb, yerr := yaml.Marshal(p)
+		var jb, yb []byte
+		var jerr, yerr error
+		if pn, msg := guard(func() {
+			jb, jerr = json.Marshal(p)
+			yb, yerr = yaml.Marshal(p)
+		}); pn {
+			c.res.Fail(core.OracleFailure{What: "marshalling a parsed pipeline panicked: " + msg, Input: desc})
+			continue
+		}
 		nonFinite := strings.Contains(string(src), ".inf") || strings.Contains(string(src), ".nan") || strings.Contains(strings.ToLower(string(src)), "nan")
 		if jerr != nil {
 			f := core.OracleFailure{What: "JSON marshalling of a parsed pipeline fails", Input: desc, Got: jerr.Error()}
@@ -1030,6 +1087,58 @@ func hasEmptyishSkip(v any) bool {
 		}
 	}
 	return false
+}
+
+// nodeScalarLeaves: the document's scalar values (not keys) in document order, each decoded by yaml.v3's
+// own Node.Decode; ok=false when the document uses aliases or merge keys (order and multiplicity differ).
+func nodeScalarLeaves(src []byte) ([]string, bool) {
+	var root yaml.Node
+	if yaml.Unmarshal(src, &root) != nil || len(root.Content) != 1 {
+		return nil, false
+	}
+	ok := true
+	var out []string
+	var walk func(n *yaml.Node)
+	walk = func(n *yaml.Node) {
+		switch n.Kind {
+		case yaml.AliasNode:
+			ok = false
+		case yaml.ScalarNode:
+			var v any
+			if n.Decode(&v) != nil {
+				ok = false
+				return
+			}
+			out = append(out, vl.Enc(dump.Any(v)))
+		case yaml.SequenceNode:
+			for _, e := range n.Content {
+				walk(e)
+			}
+		case yaml.MappingNode:
+			for i := 0; i+1 < len(n.Content); i += 2 {
+				if n.Content[i].Tag == "!!merge" || n.Content[i].Kind != yaml.ScalarNode {
+					ok = false
+					return
+				}
+				walk(n.Content[i+1])
+			}
+		}
+	}
+	walk(root.Content[0])
+	return out, ok
+}
+
+func treeScalarLeaves(v any, out *[]string) {
+	switch t := v.(type) {
+	case *ordered.MapSA:
+		t.Range(func(_ string, e any) error { treeScalarLeaves(e, out); return nil })
+	case []any:
+		for _, e := range t {
+			treeScalarLeaves(e, out)
+		}
+	default:
+		*out = append(*out, vl.Enc(dump.Any(v)))
+	}
 }
 
 // injectHostileAnchors: the document with anchors and aliases that close cycles or feed merges with
